@@ -94,6 +94,14 @@ def run_case(ctx, g, rng):
     if not recs:
         return
     conv = api.Converter([gen.mk_record(api, r) for r in recs], delimiter=d)
+
+    def fresh():
+        # every bulk call gets a converter of its own, often registered record by record or grown through merges and
+        # sometimes built with the monitors off: whatever the scalar methods do on first use happens inside the bulk call
+        c, how = gen.build(api, recs, d, rng)
+        S.counters[f"wl:build:{how}"] += 1
+        return c
+
     n = rng.randint(0, 12)
     ncols = rng.randint(1, 4)
     col = rng.randrange(ncols)
@@ -131,9 +139,9 @@ def run_case(ctx, g, rng):
         kw = {"strict": strict, "passthrough": pt}
         if meth in ("pd_compress", "pd_expand"):
             kw["ambiguous"] = amb
-            o = call(getattr(conv, meth), df, names[col], target_column=target, **kw)
+            o = call(getattr(fresh(), meth), df, names[col], target_column=target, **kw)
         else:
-            o = call(getattr(conv, meth), df, column=names[col], target_column=target, **kw)
+            o = call(getattr(fresh(), meth), df, column=names[col], target_column=target, **kw)
         probe.note_key(f"{meth}:s{int(strict)}p{int(pt)}a{int(amb)}:t{target is not None}:{o[0]}:{'+'.join(sorted(feats))}:h{int(hostile)}",
                        hostile or bool(feats))
         S.counters[f"wl:{meth}:{o[0]}"] += 1
@@ -150,7 +158,7 @@ def run_case(ctx, g, rng):
         kw = {"header": header, "strict": strict, "passthrough": pt, "ambiguous": amb}
         if sep is not None or rng.random() < 0.3:
             kw["sep"] = sep
-        o = call(getattr(conv, meth), path if rng.random() < 0.5 else str(path), col, **kw)
+        o = call(getattr(fresh(), meth), path if rng.random() < 0.5 else str(path), col, **kw)
         probe.note_key(f"{meth}:s{int(strict)}p{int(pt)}a{int(amb)}:h{int(header)}:sep{sep}:col{min(col, 2)}of{ncols}:{o[0]}:{'+'.join(sorted(feats))}:h{int(hostile)}",
                        hostile or bool(feats))
         S.counters[f"wl:{meth}:{o[0]}"] += 1
